@@ -6,7 +6,7 @@ PROPS["C03"] = dict(
                "padding, next-protocol tags under the statement's conditions) may differ; a second serialization must reproduce the first one byte for byte when a payload is present.",
     level_note="Trusted: the derived-field table in harness/c03.cpp (about 45 names) and the three normalisations taken from the statement (empty payload = none, tag needs to survive only "
                "in front of an unrecognised payload, minimum-frame zero padding). Packets that do not serialize are C02's business and are skipped (counted).",
-    phases=[dict(name="roundtrip", harness="c03.cpp", flavor="asan", mode="main", cases=dict(quick=26000, thorough=600000))],
+    phases=[dict(name="roundtrip", harness="c03.cpp", flavor="asan", mode="main", cases=dict(quick=26000, thorough=150000))],
     rule="case = (entry point, seed | truncation | mutation | generated packet); distinct = distinct (entry point, layer chain, first 96 serialized bytes) of completed round trips",
     floors=dict(any={"distinct": 20000, "roundtrips": 100000, "idempotent_serializations": 30000, "views_equal": 100000, "layer:*": 1}),
     assumptions=["x86-64 little-endian", "IP as root with source 0.0.0.0 skipped (routing table)", "PPI/PKTAP roots skipped (documented as not serializable)"],
